@@ -78,7 +78,7 @@ func invokeEvent(m map[*types.Func]string) func(in ssa.Instruction) string {
 func c07(c *ctx) {
 	r := c.r
 	r.Explain = "Static decision of the roll-back discipline: (R1) path rule over ApplyTransactions' execution loop — on the failure edge of ApplyTransaction the complete undo set (AddFailed, ResetCaches, events.Reset, slash-tracker restore, SetStore(previous)) runs and Flush/Add do not, on the success edge Flush ok + SetStore + Add; the restored values are the ones read before the wrap; " +
-		"(R2) every TxnWrap is undone by a SetStore on every exit; (R3) ResetCaches assigns every cache field; (R4) proposal/commit entry points reset speculative state on every exit and Store.Commit resets on every error exit; (R5) no state-writing error result is dropped in fsm."
+		"(R2) every TxnWrap is undone by a SetStore on every exit; (R3) ResetCaches assigns every cache field; (R4) proposal/commit entry points reset speculative state on every exit and Store.Commit resets on every error exit; (R5) no state-writing error result is dropped in fsm; (R6) the proposer's oversize probing is rolled back in the caches as well as in the store."
 	r.NotCovered = []string{"equality of the post-state with 'the block without the failed transactions' (semantic)", "process-wide caches (blockCache.Add before commit; argued harmless, F9)", "roll-back inside plugin processes"}
 	r.Trusted = []string{"store.Txn discards its write set when dropped without Flush (C10 territory)"}
 
@@ -225,6 +225,81 @@ func c07(c *ctx) {
 
 	// ------------------------------------------------------------------ R5
 	c07dropped(c)
+
+	// ------------------------------------------------------------------ R6
+	c.ruleOversizeRolledBack("R6")
+}
+
+// ruleOversizeRolledBack (C07.R6 / C11.R7): transactions recorded as 'oversize' were executed inside a store wrapper that
+// is dropped when ApplyTransactions returns; the FSM caches are write-through, so they must be dropped too, after the last
+// executed transaction, before the caller (ApplyBlock -> EndBlock) reads state again.
+func (c *ctx) ruleOversizeRolledBack(R string) {
+	r := c.r
+	r.Rule(R, "PAIR", "ApplyTransactions: on every successful return on which a transaction may have been recorded as oversize (executed inside the throw-away store wrapper), ResetCaches has run after the last executed transaction, so the caches do not carry rolled-back effects into EndBlock", 1)
+	applyTxs := c.fn("fsm.(*StateMachine).ApplyTransactions")
+	applyTx := c.fn("fsm.(*StateMachine).ApplyTransaction")
+	resetCaches := c.fn("fsm.(*StateMachine).ResetCaches")
+	addOK := c.fn("lib.(*ApplyBlockResults).Add")
+	if applyTxs == nil || applyTx == nil || resetCaches == nil || addOK == nil {
+		return
+	}
+	adds := callsIn(applyTxs, false, addOK)
+	if len(adds) != 1 {
+		r.Unk(R+"/ApplyTransactions/oversize-flag", c.p.Pos(applyTxs.Pos()), fmt.Sprintf("expected exactly one call of ApplyBlockResults.Add in ApplyTransactions, found %d", len(adds)))
+		return
+	}
+	flag := argOf(adds[0], 4)
+	if flag == nil || !isBoolType(flag.Type()) {
+		r.Unk(R+"/ApplyTransactions/oversize-flag", c.p.Pos(adds[0].Pos()), "the oversized argument of ApplyBlockResults.Add could not be identified")
+		return
+	}
+	if k, isConst := flag.(*ssa.Const); isConst {
+		// no transaction is ever recorded as oversize: nothing to roll back
+		r.OK(R+"/ApplyTransactions/oversize-flag", c.p.Pos(adds[0].Pos()), "the oversized flag is the constant "+k.Value.String())
+		return
+	}
+	// the oversize wrap itself: the TxnWrap whose transaction value is never used (never flushed)
+	var oversizeWrap ssa.Instruction
+	if txnWrap := c.fn("fsm.(*StateMachine).TxnWrap"); txnWrap != nil {
+		for _, cs := range callsIn(applyTxs, false, txnWrap) {
+			v, ok := cs.(ssa.Value)
+			if !ok {
+				continue
+			}
+			used := false
+			for _, ref := range *v.Referrers() {
+				if ex, ok := ref.(*ssa.Extract); ok && ex.Index == 0 && len(*ex.Referrers()) > 0 {
+					used = true
+				}
+			}
+			if !used {
+				oversizeWrap = cs.(ssa.Instruction)
+			}
+		}
+	}
+	c.mpt(mptSpec{
+		rule: R, fn: applyTxs,
+		events: evSet{"ApplyTx": {applyTx}, "ResetCaches": {resetCaches}},
+		extraEv: func(in ssa.Instruction) string {
+			if oversizeWrap != nil && in == oversizeWrap {
+				return "OversizeWrap"
+			}
+			return ""
+		},
+		resets: map[string][]string{"ApplyTx": {"ResetCaches"}},
+		target: tgtOkReturn("ok-return"),
+		check: func(label string, in ssa.Instruction, st *PState, e *pathEngine) string {
+			if st.Seen("ApplyTx") == 0 || st.Seen("ResetCaches") > 0 {
+				return ""
+			}
+			if e.known(st, flag) == False && st.Seen("OversizeWrap") == 0 {
+				return ""
+			}
+			return "a transaction was executed in the oversize wrapper (flag " + c.p.path(flag) + " not known false, or the wrap was taken) and ResetCaches does not run after the last ApplyTransaction: the account/pool/param caches keep the rolled-back effects and EndBlock computes a state root no replica reproduces"
+		},
+		desc:      "oversize flag known false, or ResetCaches seen after the last ApplyTransaction",
+		minTarget: 1,
+	})
 }
 
 // storesTo returns the stores into field fv in f.
@@ -276,7 +351,7 @@ func c07dropped(c *ctx) {
 	// table of deliberate discards: function -> reason
 	deliberate := map[string]string{
 		"(*fsm.StateMachine).SlashAndResetNonSigners->(*fsm.StateMachine).DeleteAll": "explicit `_ =` in the source: clearing the non-signer window; deletes into the in-memory transaction",
-		"(*fsm.StateMachine).ApplyBlock->(*fsm.StateMachine).LoadCommittee":           "a read of a historical committee (flagged only because the call graph over-approximates); a missing set yields the empty validator root",
+		"(*fsm.StateMachine).ApplyBlock->(*fsm.StateMachine).LoadCommittee":          "a read of a historical committee (flagged only because the call graph over-approximates); a missing set yields the empty validator root",
 	}
 	checked, dropped := 0, 0
 	for _, f := range sortedFuncs(reach) {
